@@ -717,6 +717,8 @@ pub fn execute(sc: &Scenario) -> Outcome {
         fired.add("in_call_clock_ticks", st.in_call_ticks);
         fired.add("in_call_clock_back_steps", st.in_call_back_steps);
         fired.add("environment_reads_served", st.env_reads_total);
+        fired.add("environment_file_opens_seen", st.file_opens_total);
+        fired.add("environment_file_opens_denied", st.file_opens_denied);
     }
     fired.add("caller_threads_spawned", spawned);
     let mut d = crate::rng::Digest::new();
